@@ -248,13 +248,41 @@ class Layouts:
         taken = canon(("tfield", ("ok", call), 1))
         rest = canon(("tfield", ("ok", call), 0))
         inner = []
+        take_key = (call[1], call[2].id if call[2] is not None else None)
+
+        def rooted(e, depth=0):
+            """The slice is the taken body or what a parser applied to (a tail of) the taken body left over - a
+            loop that walks the body (`unparsed = tail`) stays inside it."""
+            e = peel(e)
+            while e[0] in ("ref", "deref"):
+                e = peel(e[1])
+            if depth > 12:
+                return False
+            if canon(e) == taken:
+                return True
+            if e[0] == "cycle":
+                return True       # the loop-carried value itself: decided by the phi's other members
+            if e[0] == "phi":
+                ms = [m for m in e[1] if peel(m)[0] != "cycle"]
+                return bool(ms) and all(rooted(m, depth + 1) for m in ms)
+            if e[0] == "mutlocal":
+                return rooted(e[2], depth + 1)
+            if e[0] == "tfield" and e[2] == 0 and e[1][0] == "ok":
+                cx = peel(e[1][1])
+                if cx[0] == "cycle":
+                    return True
+                if cx[0] == "call" and cx[2] is not None and (cx[1], cx[2].id) != take_key:
+                    st3 = self.step_of_call(cx)
+                    if st3 is not None:
+                        return rooted(st3[1], depth + 1)
+            return False
         for blk2, t2, c2 in b.calls():
             if c2 is None or not c2.local or c2.kind != "Item" or not t2["args"]:
                 continue
             a0 = t2["args"][0]
             ty = (b.op_ty(a0) if hasattr(b, "op_ty") else "") or ""
             e0 = peel(an.op(b, a0))
-            if canon(e0) == taken:
+            if canon(e0) == taken or rooted(e0):
                 inner.append(c2.path)
             elif find(e0, lambda n: n == ("arg", cur_arg)) or canon(e0) == rest:
                 return None     # a crate parser applied to bytes outside the delimited body
@@ -269,7 +297,7 @@ class Layouts:
             if st2 is None:
                 continue
             cin = peel(st2[1])
-            if canon(cin) == taken:
+            if canon(cin) == taken or rooted(cin):
                 inner.append(term_s(st2[0])[:80])
             elif find(cin, lambda n: n == ("arg", cur_arg)) or canon(cin) == rest:
                 return None
